@@ -61,7 +61,11 @@ def report_races(ctx, reports, what):
     os.makedirs(os.path.join(core.VERIF, "replays"), exist_ok=True)
     known = [k for k in load_known().get("known", []) if k.get("property") == ctx.pid]
     for rep in reports[:5]:
-        frames = [ln.strip() for ln in rep.splitlines() if "vegeta/v12" in ln or ln.strip().startswith("/repo/")]
+        frames = [ln.strip() for ln in rep.splitlines() if "vegeta/v12" in ln or ln.strip().startswith(core.REPO + "/")]
+        if not frames:
+            # no frame of the code under test in either stack: a race inside the harness or a library, not a verdict
+            ctx.notes.append("race report without a frame of %s ignored: %s" % (core.REPO, " ".join(rep.split()[:40])))
+            continue
         sig = "data race: " + " | ".join(frames[:2])[:240]
         hit = next((k for k in known if k.get("key") == sig), None)
         if hit:
